@@ -16,26 +16,26 @@ Ltac norm_in H :=
   try change (4294967295 - u32 3218235020) with 1076732275 in H;
   try change (4294967295 - u32 2940772411) with 1354194884 in H;
   try change (4294967295 - u32 3132021990) with 1162945305 in H.
-Ltac wrap_eq H := norm_in H; unfold u64, u32 in H; repeat (rewrite Z.mod_small in H by lia).
+Ltac wrap_eq H := norm_in H; unfold u64, u32 in H; repeat (rewrite Z.mod_small in H by (timeout 300 lia)).
 Ltac u64_step :=
   lazymatch goal with |- bind (u64 _) _ => idtac end; bintro;
   lazymatch goal with H : _ = u64 _ |- _ => wrap_eq H end.
 Ltac small_sum_step :=
   lazymatch goal with |- bind (u32 (_ + _)) _ => idtac end; bintro;
   lazymatch goal with H : ?x = u32 (?a + ?b) |- _ =>
-    let B := fresh "B" in assert (B : 0 <= a + b <= 12) by lia;
-    unfold u32 in H; rewrite (Z.mod_small (a + b) (2^32)) in H by lia end.
+    let B := fresh "B" in assert (B : 0 <= a + b <= 12) by (timeout 120 lia);
+    unfold u32 in H; rewrite (Z.mod_small (a + b) (2^32)) in H by (timeout 120 lia) end.
 Definition hidden (P : Prop) : Prop := P.
 Ltac hide H := match type of H with ?T => change (hidden T) in H end.
 Ltac overflow_step :=
   lazymatch goal with |- bind ?e _ => lazymatch e with context[scalar8x32_check_overflow] => idtac end end; bintro;
   lazymatch goal with E : context[scalar8x32_check_overflow ?a0 ?a1 ?a2 ?a3 ?a4 ?a5 ?a6 ?a7] |- _ =>
      let H := fresh "CO" in let co := fresh "co" in let Hb := fresh "COb" in let Eco := fresh "Eco" in
-     pose proof (scalar8x32_check_overflow_correct a0 a1 a2 a3 a4 a5 a6 a7 ltac:(lia) ltac:(lia) ltac:(lia) ltac:(lia) ltac:(lia) ltac:(lia) ltac:(lia) ltac:(lia)) as H;
+     pose proof (scalar8x32_check_overflow_correct a0 a1 a2 a3 a4 a5 a6 a7 ltac:(timeout 120 lia) ltac:(timeout 120 lia) ltac:(timeout 120 lia) ltac:(timeout 120 lia) ltac:(timeout 120 lia) ltac:(timeout 120 lia) ltac:(timeout 120 lia) ltac:(timeout 120 lia)) as H;
      remember (scalar8x32_check_overflow a0 a1 a2 a3 a4 a5 a6 a7) as co eqn:Eco; clear Eco;
      assert (Hb : 0 <= co <= 1) by (rewrite H; destruct (N256 <=? val8w a0 a1 a2 a3 a4 a5 a6 a7); lia);
      change (hidden (co = (if N256 <=? val8w a0 a1 a2 a3 a4 a5 a6 a7 then 1 else 0))) in H;
-     unfold u64, u32 in E; repeat (rewrite Z.mod_small in E by lia)
+     unfold u64, u32 in E; repeat (rewrite Z.mod_small in E by (timeout 300 lia))
   end.
 
 Theorem scalar8x32_reduce_512_correct l0 l1 l2 l3 l4 l5 l6 l7 l8 l9 l10 l11 l12 l13 l14 l15 :
@@ -50,11 +50,11 @@ Proof.
   repeat first [ muladd32_step | muladd_fast32_step | sumadd32_step | sumadd_fast32_step | keep_step ].
   small_sum_step.
   assert (SM : m0 + m1 * 2^32 + m2 * 2^64 + m3 * 2^96 + m4 * 2^128 + m5 * 2^160 + m6 * 2^192 + m7 * 2^224 + m8 * 2^256 + m9 * 2^288 + m10 * 2^320 + m11 * 2^352 + m12 * 2^384 =
-               l0 + l1 * 2^32 + l2 * 2^64 + l3 * 2^96 + l4 * 2^128 + l5 * 2^160 + l6 * 2^192 + l7 * 2^224 + (l8 + l9 * 2^32 + l10 * 2^64 + l11 * 2^96 + l12 * 2^128 + l13 * 2^160 + l14 * 2^192 + l15 * 2^224) * (801750719 + 1076732275 * 2^32 + 1354194884 * 2^64 + 1162945305 * 2^96 + 2^128)) by lia.
-  assert (Bm : (0 <= m0 < 2^32 /\ 0 <= m1 < 2^32 /\ 0 <= m2 < 2^32 /\ 0 <= m3 < 2^32 /\ 0 <= m4 < 2^32 /\ 0 <= m5 < 2^32 /\ 0 <= m6 < 2^32 /\ 0 <= m7 < 2^32) /\ (0 <= m8 < 2^32 /\ 0 <= m9 < 2^32 /\ 0 <= m10 < 2^32 /\ 0 <= m11 < 2^32 /\ 0 <= m12 <= 3)) by lia.
+               l0 + l1 * 2^32 + l2 * 2^64 + l3 * 2^96 + l4 * 2^128 + l5 * 2^160 + l6 * 2^192 + l7 * 2^224 + (l8 + l9 * 2^32 + l10 * 2^64 + l11 * 2^96 + l12 * 2^128 + l13 * 2^160 + l14 * 2^192 + l15 * 2^224) * (801750719 + 1076732275 * 2^32 + 1354194884 * 2^64 + 1162945305 * 2^96 + 2^128)) by (timeout 600 lia).
+  assert (Bm : (0 <= m0 < 2^32 /\ 0 <= m1 < 2^32 /\ 0 <= m2 < 2^32 /\ 0 <= m3 < 2^32 /\ 0 <= m4 < 2^32 /\ 0 <= m5 < 2^32 /\ 0 <= m6 < 2^32 /\ 0 <= m7 < 2^32) /\ (0 <= m8 < 2^32 /\ 0 <= m9 < 2^32 /\ 0 <= m10 < 2^32 /\ 0 <= m11 < 2^32 /\ 0 <= m12 <= 3)) by (timeout 600 lia).
   assert (SP : p0 + p1 * 2^32 + p2 * 2^64 + p3 * 2^96 + p4 * 2^128 + p5 * 2^160 + p6 * 2^192 + p7 * 2^224 + p8 * 2^256 =
-               m0 + m1 * 2^32 + m2 * 2^64 + m3 * 2^96 + m4 * 2^128 + m5 * 2^160 + m6 * 2^192 + m7 * 2^224 + (m8 + m9 * 2^32 + m10 * 2^64 + m11 * 2^96 + m12 * 2^128) * (801750719 + 1076732275 * 2^32 + 1354194884 * 2^64 + 1162945305 * 2^96 + 2^128)) by lia.
-  assert (Bp : (0 <= p0 < 2^32 /\ 0 <= p1 < 2^32 /\ 0 <= p2 < 2^32 /\ 0 <= p3 < 2^32 /\ 0 <= p4 < 2^32 /\ 0 <= p5 < 2^32 /\ 0 <= p6 < 2^32 /\ 0 <= p7 < 2^32) /\ 0 <= p8 <= 12) by lia.
+               m0 + m1 * 2^32 + m2 * 2^64 + m3 * 2^96 + m4 * 2^128 + m5 * 2^160 + m6 * 2^192 + m7 * 2^224 + (m8 + m9 * 2^32 + m10 * 2^64 + m11 * 2^96 + m12 * 2^128) * (801750719 + 1076732275 * 2^32 + 1354194884 * 2^64 + 1162945305 * 2^96 + 2^128)) by (timeout 600 lia).
+  assert (Bp : (0 <= p0 < 2^32 /\ 0 <= p1 < 2^32 /\ 0 <= p2 < 2^32 /\ 0 <= p3 < 2^32 /\ 0 <= p4 < 2^32 /\ 0 <= p5 < 2^32 /\ 0 <= p6 < 2^32 /\ 0 <= p7 < 2^32) /\ 0 <= p8 <= 12) by (timeout 600 lia).
   clear - SM Bm SP Bp H0 H1 H2 H3 H4 H5 H6 H7 H8 H9 H10 H11 H12 H13 H14 H15.
   (* stage 3: 258 -> 256 bits, and the final conditional subtraction of n (the summaries of stages 1-2 are set aside) *)
   hide SM; hide SP; hide Bm.
@@ -63,13 +63,13 @@ Proof.
   unfold hidden in *.
   match goal with H : ?co = (if N256 <=? ?v then 1 else 0) |- _ => destruct (Z.leb_spec N256 v) as [Hv|Hv] end.
   all: unfold val8w, val16w, N256 in *.
-  all: assert (A1 : r_d0 + r_d1 * 2^32 + r_d2 * 2^64 + r_d3 * 2^96 + r_d4 * 2^128 + r_d5 * 2^160 + r_d6 * 2^192 + r_d7 * 2^224 + c14 * 2^256 = p0 + p1 * 2^32 + p2 * 2^64 + p3 * 2^96 + p4 * 2^128 + p5 * 2^160 + p6 * 2^192 + p7 * 2^224 + p8 * (801750719 + 1076732275 * 2^32 + 1354194884 * 2^64 + 1162945305 * 2^96 + 2^128)) by lia.
-  all: assert (A2 : r_d8 + r_d9 * 2^32 + r_d10 * 2^64 + r_d11 * 2^96 + r_d12 * 2^128 + r_d13 * 2^160 + r_d14 * 2^192 + r_d15 * 2^224 + ctop * 2^256 = r_d0 + r_d1 * 2^32 + r_d2 * 2^64 + r_d3 * 2^96 + r_d4 * 2^128 + r_d5 * 2^160 + r_d6 * 2^192 + r_d7 * 2^224 + scalar_reduce1_overflow * (801750719 + 1076732275 * 2^32 + 1354194884 * 2^64 + 1162945305 * 2^96 + 2^128)) by lia.
-  all: assert (A3 : c14 = 0 \/ c14 = 1) by lia.
+  all: assert (A1 : r_d0 + r_d1 * 2^32 + r_d2 * 2^64 + r_d3 * 2^96 + r_d4 * 2^128 + r_d5 * 2^160 + r_d6 * 2^192 + r_d7 * 2^224 + c14 * 2^256 = p0 + p1 * 2^32 + p2 * 2^64 + p3 * 2^96 + p4 * 2^128 + p5 * 2^160 + p6 * 2^192 + p7 * 2^224 + p8 * (801750719 + 1076732275 * 2^32 + 1354194884 * 2^64 + 1162945305 * 2^96 + 2^128)) by (timeout 600 lia).
+  all: assert (A2 : r_d8 + r_d9 * 2^32 + r_d10 * 2^64 + r_d11 * 2^96 + r_d12 * 2^128 + r_d13 * 2^160 + r_d14 * 2^192 + r_d15 * 2^224 + ctop * 2^256 = r_d0 + r_d1 * 2^32 + r_d2 * 2^64 + r_d3 * 2^96 + r_d4 * 2^128 + r_d5 * 2^160 + r_d6 * 2^192 + r_d7 * 2^224 + scalar_reduce1_overflow * (801750719 + 1076732275 * 2^32 + 1354194884 * 2^64 + 1162945305 * 2^96 + 2^128)) by (timeout 600 lia).
+  all: assert (A3 : c14 = 0 \/ c14 = 1) by (timeout 600 lia).
   all: split; [lia|].
-  all: assert (RB : 0 <= r_d8 + r_d9 * 2^32 + r_d10 * 2^64 + r_d11 * 2^96 + r_d12 * 2^128 + r_d13 * 2^160 + r_d14 * 2^192 + r_d15 * 2^224 < 2^256) by lia.
-  all: assert (RR : 0 <= r_d0 + r_d1 * 2^32 + r_d2 * 2^64 + r_d3 * 2^96 + r_d4 * 2^128 + r_d5 * 2^160 + r_d6 * 2^192 + r_d7 * 2^224 < 2^256) by lia.
-  all: assert (PT : 0 <= ctop) by lia.
+  all: assert (RB : 0 <= r_d8 + r_d9 * 2^32 + r_d10 * 2^64 + r_d11 * 2^96 + r_d12 * 2^128 + r_d13 * 2^160 + r_d14 * 2^192 + r_d15 * 2^224 < 2^256) by (timeout 600 lia).
+  all: assert (RR : 0 <= r_d0 + r_d1 * 2^32 + r_d2 * 2^64 + r_d3 * 2^96 + r_d4 * 2^128 + r_d5 * 2^160 + r_d6 * 2^192 + r_d7 * 2^224 < 2^256) by (timeout 600 lia).
+  all: assert (PT : 0 <= ctop) by (timeout 600 lia).
   all: match goal with Q : _ = _ + ?co', CO' : ?co' = _ |- _ => rename Q into E5 end.
   all: clear - SM Bm SP Bp A1 A2 A3 CO E5 Hv RB RR PT H0 H1 H2 H3 H4 H5 H6 H7 H8 H9 H10 H11 H12 H13 H14 H15.
   all: apply (Z.mod_unique_pos _ _ ((l8 + l9 * 2^32 + l10 * 2^64 + l11 * 2^96 + l12 * 2^128 + l13 * 2^160 + l14 * 2^192 + l15 * 2^224) + (m8 + m9 * 2^32 + m10 * 2^64 + m11 * 2^96 + m12 * 2^128) + p8 + scalar_reduce1_overflow)).
